@@ -9,7 +9,7 @@
    fixes/01-audit-no-template.diff — (d); it is REFUTED by the faithful model for (b) (C29_audit_refuted_unknown_version:
    ErrSchemaNotFound is returned before any mode test; kept as a known finding, a design choice). *)
 From Coq Require Import List ZArith String Bool.
-From LV Require Import Base.Util Ledger.Types Ledger.Core Ledger.Invariants Ledger.Chart Ledger.SchemaCtrl Ledger.SchemaProofs.
+From LV Require Import Base.Util Ledger.Types Ledger.Core Ledger.Invariants Ledger.Chart Ledger.SchemaCtrl Ledger.SchemaProofs Ledger.HttpView Ledger.HttpViewSchema.
 Import ListNotations.
 Open Scope Z_scope.
 
@@ -19,6 +19,14 @@ Theorem C29_rejected_no_effect : forall rv rm f m now ss i ss' e,
   sstep rv rm f m now ss i = SSR ss' (SErr e) -> stables ss' = stables ss.
 Proof. exact sstep_error_no_trace. Qed.
 Print Assumptions C29_rejected_no_effect.
+
+(* ... and over HTTP every such rejection is a 4xx (status layer: Ledger/HttpViewSchema.v, compared by the TIE-H schema histories) *)
+Theorem C29_rejection_is_4xx_no_effect : forall rv rm f m now ss i ss' e,
+  sstep rv rm f m now ss i = SSR ss' (SErr e) -> 400 <= fst (shttp_error e) < 500 /\ stables ss' = stables ss.
+Proof.
+  intros rv rm f m now ss i ss' e H. split; [exact (shttp_error_is_client_error e) | exact (sstep_error_no_trace _ _ _ _ _ _ _ _ _ H)].
+Qed.
+Print Assumptions C29_rejection_is_4xx_no_effect.
 
 (* (a) strict: a ledger with schemas requires a schema version *)
 Theorem C29_strict_version_required : forall rv rm f now ss template o,
